@@ -36,7 +36,7 @@ def array_to_blocks(input, blk_shape, blk_strides):
 
     ndim = len(blk_shape)
     num_blks = [
-        (i - b + s) // s
+        (int(i) - int(b) + int(s)) // int(s)
         for i, b, s in zip(input.shape[-ndim:], blk_shape, blk_strides)
     ]
     batch_shape = list(input.shape[:-ndim])
